@@ -363,9 +363,19 @@ def gen_b(seed, A):
                         contains += [f"subroutine {tn}_ov(self)", f"class({tn}), intent(in) :: self", f"end subroutine {tn}_ov"]
                         overrides.append((e, ov.lower(), tn))
                     else:
-                        decl += [f"type, extends({loc}) :: {tn}", f"!! doc {t}", "integer :: extra", f"end type {tn}"]
-                    ents.append(Ent("B", bname, "type", tn, "public", t))
-                    refs.append({"src": t, "via": "extends", "text": e.name, "target": e})
+                        # sometimes the extension is private (not displayed): a call of the inherited binding through it still leads to A's page
+                        priv = bool(ov) and rng.random() < 0.6
+                        decl += [f"type, {'private, ' if priv else ''}extends({loc}) :: {tn}", f"!! doc {t}", "integer :: extra", f"end type {tn}"]
+                        if ov:
+                            t3 = T()
+                            pn = f"bq_{bi}_{len(contains)}"
+                            contains += [f"subroutine {pn}()", f"!! doc {t3}", f"type({tn}) :: obj", f"call obj%{ov.lower()}()", f"end subroutine {pn}"]
+                            ents.append(Ent("B", bname, "subroutine", pn, "public", t3))
+                            refs.append({"src": t3, "via": "call_inherited_binding" + ("_through_private_type" if priv else ""), "text": ov, "target": e, "needs_graph": True})
+                    hidden = "private, extends" in decl[-4] or any(l.startswith(f"type, private, extends({loc}) :: {tn}") for l in decl)
+                    ents.append(Ent("B", bname, "type", tn, "private" if hidden else "public", t if not hidden else ""))
+                    if not hidden:  # (a private type has no page under the default display)
+                        refs.append({"src": t, "via": "extends", "text": e.name, "target": e})
                 else:
                     t = T()
                     tn = f"bh_{bi}_{len(decl)}"
@@ -626,11 +636,15 @@ def case(arg):
             externals = {"projA": "http://127.0.0.1:9/" if rng.random() < 0.5 else os.path.join("..", "no_such_dir", "doc")}
             expect_links = False
         elif scenario == "broken_listed_first":
-            bad = rng.choice(["http://127.0.0.1:9/", os.path.join(root, "nowhere"), "corrupt"])
+            bad = rng.choice(["http://127.0.0.1:9/", os.path.join(root, "nowhere"), "corrupt", "corrupt", "corrupt"])
             if bad == "corrupt":
                 bad = os.path.join(root, "corrupt_ext")
                 os.makedirs(bad)
-                open(os.path.join(bad, "modules.json"), "w").write("{ not json")
+                # what a broken or foreign server may hand out: truncated JSON, an HTML error page, JSON in another encoding, binary junk, an empty file
+                junk = rng.choice([b"{ not json", b"<html><body><h1>404 Not Found</h1></body></html>", json.dumps({"modules": []}).encode("utf-16"),
+                                   b"\xff\xfe\x00\x01\x80\x81 binary", b"", b"[1, 2, 3]", json.dumps({"ford-metadata": {"version": "x"}}).encode()])
+                open(os.path.join(bad, "modules.json"), "wb").write(junk)
+                cfg["corrupt_modules_json"] = junk[:12].decode("latin-1")
             externals = {"a_broken": bad, "projA": ext}
         b_opts = {"project": "ProjB", "graph": graph, "proc_internals": True, "external": externals}
         write_proj(b_root, B["files"], b_opts)
@@ -703,11 +717,16 @@ def case(arg):
             found = False
             if not (r["via"] == "doc_link" and r.get("form") in ("plain", "plain_ext_class")):
                 also = []
+            need_frag = None
+            if r["via"].startswith("call_inherited_binding"):
+                # the call graph on the calling procedure's own page: the node of the inherited binding leads to the binding on A's type page
+                src_pages = [p for p in src_pages if p.split(os.sep)[0] == "proc"]
+                need_frag = "boundprocedure-" + r["text"].lower()
             wrong = []
             for p in src_pages:
                 for text, url in b_pages[p]["links"]:
                     where, rel, frag = resolve(url, p, b_out, a_out, remote_prefix)
-                    if (where == tgt.proj and rel in tp) or (where, rel) in also:
+                    if ((where == tgt.proj and rel in tp) or (where, rel) in also) and (need_frag is None or re.fullmatch(re.escape(need_frag) + r"(~\d+)?", frag.lower())):
                         found = True
                     elif text.strip().lower() == r["text"].lower() and where in ("A", "B"):
                         wrong.append((p, url))
@@ -746,7 +765,7 @@ def case(arg):
         #      leading to its own page
         if graph:
             for r in B["refs"]:
-                if r["via"] not in ("call", "extends", "component_type", "variable_type") or r["target"].proj != "A" or not r["target"].tracer:
+                if r["via"] not in ("call", "extends", "component_type") or r["target"].proj != "A" or not r["target"].tracer:
                     continue
                 tgt = r["target"]
                 own = [e2 for e2 in B["ents"] if e2.tracer and e2.name.lower() == tgt.name.lower() and e2.kind == tgt.kind]
@@ -756,7 +775,8 @@ def case(arg):
                 tp_a, tp_b = pages_of(a_pages, getattr(tgt, "alias_of", tgt)), [p for e2 in own for p in pages_of(b_pages, e2)]
                 got_a = got_b = other_a = False
                 named = []
-                tp_a_other = [p for e2 in A["ents"] if e2.tracer and e2 is not getattr(tgt, "alias_of", tgt) and e2.name.lower() == tgt.name.lower() and e2.kind == tgt.kind for p in pages_of(a_pages, e2)]
+                grp = lambda k_: "proc" if k_ in ("subroutine", "function", "interface") else k_  # noqa: E731
+                tp_a_other = [p for e2 in A["ents"] if e2.tracer and e2 is not getattr(tgt, "alias_of", tgt) and e2.name.lower() == tgt.name.lower() and grp(e2.kind) == grp(tgt.kind) and e2.kind != "variable" for p in pages_of(a_pages, e2)]
                 for text, url in b_pages[lp]["links"]:
                     where, rel, frag = resolve(url, lp, b_out, a_out, remote_prefix)
                     if where == "A" and rel in tp_a:
